@@ -90,7 +90,7 @@ STD_ENUMS = {
     'Option': ['None', 'Some'], 'Result': ['Ok', 'Err'], 'Ordering': ['Less', 'Equal', 'Greater'],
     'ControlFlow': ['Continue', 'Break'], 'Level': ['_', 'Error', 'Warn', 'Info', 'Debug', 'Trace'],
     'LevelFilter': ['Off', 'Error', 'Warn', 'Info', 'Debug', 'Trace'],
-    'TryRecvError': ['Empty', 'Disconnected'],
+    'TryRecvError': ['Empty', 'Disconnected'], 'TrySendError': ['Full', 'Disconnected'],
 }
 STD_DISCR = {('Ordering', 'Less'): -1, ('Ordering', 'Equal'): 0, ('Ordering', 'Greater'): 1}
 
@@ -189,6 +189,7 @@ class Engine:
         res = None
         if text.startswith('impl'):
             t = strip_generics(text[4:]).strip()
+            t = re.split(r'\s+where\b', t)[0].strip()
             if ' for ' in t:
                 tr, ty = t.split(' for ', 1)
                 res = (tr.strip().split('::')[-1], ty.strip().split('::')[-1].lstrip('&').strip())
@@ -529,6 +530,7 @@ class Engine:
         if k == 'closure': return Closure(plan[1], [])
         if k == 'fnref': return FnRef(plan[1])
         if k == 'bytes': return Struct(list(plan[1]))
+        if k == 'tuple': return Struct([self.const(fn, x) for x in plan[1]])
         raise Unsupported('const plan')
 
     def const_plan(self, fn, s):
@@ -573,6 +575,9 @@ class Engine:
                     if h and h[1] == segs[-2]: return ('call', f)
         m = re.match(r'^\{closure@(.*)\}$', s)
         if m: return ('closure', m.group(1))
+        if s.startswith('(') and find_matching(s, 0) == len(s) - 1:
+            return ('tuple', split_top(s[1:-1]))
+        if self.resolve(s) is not None or re.match(r'^(<.*>|[\w:<>\', ]+)::\w+(::<.*>)?$', s): return ('fnref', s)
         raise Unsupported('const ' + s)
 
     def ty_of_operand(self, fn, s):
@@ -1056,15 +1061,23 @@ class Engine:
             self.drop_value(v.c[0])
 
     def call_open(self, s):
-        """index of the '(' that opens the argument list (the last top-level paren group)"""
-        depth = 0
-        for j in range(len(s) - 1, -1, -1):
-            c = s[j]
-            if c == ')': depth += 1
-            elif c == '(':
-                depth -= 1
-                if depth == 0: return j
-        raise Unsupported('call ' + s)
+        """index of the '(' that opens the argument list (the last top-level paren group); string literals are skipped"""
+        depth = 0; last = None; k = 0; n = len(s); instr = False
+        while k < n:
+            c = s[k]
+            if instr:
+                if c == '\\': k += 1
+                elif c == '"': instr = False
+            elif c == '"': instr = True
+            elif c == "'" and k + 2 < n and (s[k+2] == "'" or (s[k+1] == '\\' and k + 3 < n and s[k+3] == "'")):
+                k += 3 if s[k+1] == '\\' else 2          # char literal such as '(' or '\''
+            elif c in '([{': 
+                if depth == 0 and c == '(': last = k
+                depth += 1
+            elif c in ')]}': depth -= 1
+            k += 1
+        if last is None: raise Unsupported('call ' + s)
+        return last
 
     # ---------- library models ----------
     def find_model(self, callee):
